@@ -29,7 +29,15 @@ Definition tdecl_ok (d : tdecl) : Prop :=
   | TdLate _ b => is_elem b = false
   end.
 Definition unit_ok (u : unit_) : Prop := Forall ditem_ok (u_decls u) /\ Forall rstmt (u_body u).
-Definition elem_ok (e : elem) : Prop := match e with ETypes l => Forall tdecl_ok l | EUnit u => unit_ok u end.
+(* in a function: no VAR_EXTERNAL, and VAR takes only CONSTANT *)
+Definition fditem_ok (d : ditem) : Prop :=
+  ditem_ok d /\ match d with
+                | DVar _ DcExternal _ _ => False
+                | DVar _ DcVar q _ => q = DqNone \/ q = DqConst
+                | _ => True
+                end.
+Definition func_ok (f : func_) : Prop := Forall fditem_ok (fn_decls f) /\ Forall rstmt (fn_body f).
+Definition elem_ok (e : elem) : Prop := match e with ETypes l => Forall tdecl_ok l | EUnit u => unit_ok u | EFunc f => func_ok f end.
 
 Lemma bound_sp_spec b : bound_ok b ->
   wf_int token tok_class (sint_sp (fst b) (snd b)) /\ erase_int token tok_num (sint_sp (fst b) (snd b)) = b /\ lead (fst b) = ws1.
@@ -127,12 +135,47 @@ Proof.
   all: split; [apply nl1_triv|]; split; [|apply nl1_triv]; split; [exact W|]; rewrite A; discriminate.
 Qed.
 
+Lemma fwb_sp_spec d : fditem_ok d -> wf_fwb token tok_class (wb_sp d) /\ derase_wb (wb_sp d) = [d].
+Proof.
+  intros (Hd & Hx). destruct (wb_sp_spec d Hd) as (W & E). split; [|exact E].
+  destruct W as (Wt & Wb). split; [exact Wt|]. split; [exact Wb|].
+  unfold wb_sp, block_sp in *.
+  destruct d as [n c q i|n rising q]; cbn [bk_kw bk_q bk_ds].
+  - rewrite class_kw_spec. destruct c; try exact I; try contradiction Hx.
+    split; [|exact I]. rewrite (proj1 (qual_sp_spec q)). destruct Hx as [-> | ->]; [left | right]; reflexivity.
+  - rewrite class_kw_spec. exact I.
+Qed.
+
+Lemma fwbs_spec ds : Forall fditem_ok ds -> Forall (wf_fwb token tok_class) (map wb_sp ds) /\ flat_map derase_wb (map wb_sp ds) = ds.
+Proof.
+  induction 1 as [|d ds Hd _ (W & E)]; [split; [constructor | reflexivity]|].
+  destruct (fwb_sp_spec d Hd) as (Wd & Ed). cbn [map flat_map]. split; [constructor; assumption|]. rewrite Ed, E. reflexivity.
+Qed.
+
+Lemma tail_gap_triv l : rtriv (tail_gap l).
+Proof. destruct l; [apply nil_triv | apply nl1_triv]. Qed.
+
+Lemma func_sp_spec f : func_ok f -> wf_f (func_sp f) /\ erase_f (func_sp f) = f.
+Proof.
+  intros (Hd & Hb). destruct (fwbs_spec (fn_decls f) Hd) as (Wd & Ed).
+  assert (Gb : Forall stmt_good (fn_body f)) by (eapply Forall_impl; [apply ss_of_spec | exact Hb]).
+  destruct (body_sp_spec (fn_body f) Gb) as (Wb & Eb & Ab). destruct (ty_tok_tyref (fn_ret f)) as (T1 & T2).
+  destruct f as [name ret ds body]. cbn [fn_name fn_ret fn_decls fn_body] in *.
+  unfold func_sp, wf_f, erase_f. cbn [fn_name fn_ret fn_decls fn_body sf_kw sf_w0 sf_nm sf_w1 sf_colon sf_w2 sf_ty sf_blocks sf_w3 sf_body sf_w4 sf_en].
+  rewrite Ed, Eb, T2. split; [|reflexivity].
+  split; [reflexivity|]. split; [apply ws1_triv|]. split; [reflexivity|]. split; [apply ws1_triv|]. split; [reflexivity|].
+  split; [apply ws1_triv|]. split; [exact T1|]. split; [exact Wd|]. split; [apply nl1_triv|]. split; [exact Wb|].
+  split; [exact Ab|]. split; [apply tail_gap_triv | reflexivity].
+Qed.
+
 Lemma elem_sp_spec e : elem_ok e -> Forall wf_we (elem_sp e) /\ map erase_we (elem_sp e) = split_types [e].
 Proof.
-  destruct e as [l|u]; cbn [elem_ok elem_sp split_types flat_map]; rewrite app_nil_r.
+  destruct e as [l|u|f]; cbn [elem_ok elem_sp split_types flat_map]; rewrite app_nil_r.
   - induction 1 as [|d l Hd _ (W & E)]; [split; [constructor | reflexivity]|]. destruct (tblock_sp_spec d Hd) as (Wd & Ed).
     cbn [map erase_we erase_e]. rewrite Ed, E. split; [|reflexivity]. constructor; [|exact W]. split; [apply nl1_triv | exact Wd].
   - intro H. destruct (unit_sp_spec u H) as (W & E). cbn [map erase_we erase_e]. rewrite E. split; [|reflexivity].
+    constructor; [|constructor]. split; [apply nl1_triv | exact W].
+  - intro H. destruct (func_sp_spec f H) as (W & E). cbn [map erase_we erase_e]. rewrite E. split; [|reflexivity].
     constructor; [|constructor]. split; [apply nl1_triv | exact W].
 Qed.
 
@@ -152,7 +195,7 @@ Qed.
 Lemma elem_sp_split es : flat_map elem_sp (split_types es) = flat_map elem_sp es.
 Proof.
   induction es as [|e es IH]; [reflexivity|]. unfold split_types in *. cbn [flat_map]. rewrite flat_map_app, IH. f_equal.
-  destruct e as [l|u]; [|reflexivity]. induction l as [|d l IHl]; [reflexivity|]. cbn [map flat_map elem_sp app]. rewrite IHl. reflexivity.
+  destruct e as [l|u|f]; [|reflexivity|reflexivity]. induction l as [|d l IHl]; [reflexivity|]. cbn [map flat_map elem_sp app]. rewrite IHl. reflexivity.
 Qed.
 
 Corollary render_lib2_fixed_point : forall es, Forall elem_ok es ->
@@ -169,7 +212,7 @@ Qed.
 Lemma split_types_idem es : split_types (split_types es) = split_types es.
 Proof.
   induction es as [|e es IH]; [reflexivity|]. unfold split_types in *. cbn [flat_map]. rewrite flat_map_app, IH. f_equal.
-  destruct e as [l|u]; [|reflexivity]. induction l as [|d l IHl]; [reflexivity|]. cbn [map flat_map app]. rewrite IHl. reflexivity.
+  destruct e as [l|u|f]; [|reflexivity|reflexivity]. induction l as [|d l IHl]; [reflexivity|]. cbn [map flat_map app]. rewrite IHl. reflexivity.
 Qed.
 
 Local Open Scope string_scope.
@@ -191,16 +234,27 @@ Definition ex_types : list tdecl :=
     TdEnumOf [69%N] [67%N] [114%N];
     TdSimple [83%N] (text_of_string "INT") (LfInt false 3%N);
     TdLate [66%N] [67%N] ].
+Definition ex_fdecls : list ditem :=
+  [ DVar [97%N] DcInput DqRetain (DSimple (text_of_string "INT") (Some (LfInt false 5%N)));
+    DVar [98%N] DcOutput DqNone (DSimple (text_of_string "TIME_OF_DAY") None);
+    DVar [99%N] DcInOut DqNone (DLate (text_of_string "BOOL"));
+    DVar [101%N] DcVar DqConst (DEnumType [84%N] [82%N]);
+    DVar [102%N] DcVar DqNone (DLate [85%N]);
+    DEdge [104%N] true DqRetain ].
 Definition ex_elems : list elem :=
-  [ ETypes ex_types; EUnit (mkUnit UFb [102%N] ex_decls ex_stmts); ETypes [TdLate [68%N] [67%N]]; EUnit (mkUnit UProgram [112%N] [] []) ].
+  [ ETypes ex_types; EUnit (mkUnit UFb [102%N] ex_decls ex_stmts); ETypes [TdLate [68%N] [67%N]]; EUnit (mkUnit UProgram [112%N] [] []);
+    EFunc (mkFunc [103%N] (text_of_string "INT") ex_fdecls ex_stmts); EFunc (mkFunc [104%N] [67%N] [] []) ].
 Example ex_elems_ok : Forall elem_ok ex_elems.
 Proof.
-  constructor; [|constructor; [|constructor; [|constructor; [|constructor]]]].
+  constructor; [|constructor; [|constructor; [|constructor; [|constructor; [|constructor; [|constructor]]]]]].
   - cbn [elem_ok ex_types]. repeat (constructor; [cbn [tdecl_ok]|]); try constructor; try discriminate; try (vm_compute; reflexivity).
     all: try (repeat constructor; vm_compute; reflexivity).
     all: try (repeat split; try reflexivity; vm_compute; reflexivity).
   - split; [exact ex_decls_ok | exact (proj1 ex_renderable)].
   - cbn [elem_ok]. constructor; [vm_compute; reflexivity | constructor].
+  - split; constructor.
+  - split; [|exact (proj1 ex_renderable)]. cbn [fn_decls ex_fdecls].
+    repeat (constructor; [split; [cbn; try (split; [reflexivity|]); try reflexivity; try (eexists; reflexivity); try (vm_compute; reflexivity)|]; try exact I; try (left; reflexivity); try (right; reflexivity)|]). constructor.
   - split; constructor.
 Qed.
 Example ex_elems_round_trip : parse_lib2_tokens (render_lib2 ex_elems) = O4Parsed (split_types ex_elems).
